@@ -747,17 +747,22 @@ def run(ctx: vlib.Ctx):
         "Coq model (MRO-resolved method; known finding C19/format-method-subclass-dispatch): oracle only",
     ]
     # 1. theorems
-    br = ctx.theorems("props/C19_hooks.vo", THEOREMS)
-    ctx.theorems("props/C19_sites.vo", SITE_THEOREMS, kernels=["K49"])
-    ctx.theorems("props/C19_flags.vo", FLAG_THEOREMS, kernels=["K8"])
-    ctx.theorems("props/C19_union_emit.vo", UNION_THEOREMS, kernels=["K21", "K19"])
-    ctx.theorems("props/C19_disc_variants.vo", DISC_THEOREMS, kernels=["K12"])
+    br = S.theorems_robust(ctx, "props/C19_hooks.vo", THEOREMS)
+    S.theorems_robust(ctx, "props/C19_sites.vo", SITE_THEOREMS, kernels=["K49"])
+    S.theorems_robust(ctx, "props/C19_flags.vo", FLAG_THEOREMS, kernels=["K8"])
+    S.theorems_robust(ctx, "props/C19_union_emit.vo", UNION_THEOREMS, kernels=["K21", "K19"])
+    S.theorems_robust(ctx, "props/C19_disc_variants.vo", DISC_THEOREMS, kernels=["K12"])
     if thorough_tier(ctx) and br.ok:
         # second opinion: the standalone checker re-checks the compiled library and its whole cone
-        rc, out, secs = vlib.run(["timeout", "1500", "coqchk", "-o", "-silent", "-Q", "theories", "Verif", "-Q", "gen", "VerifGen",
-                                  "-Q", "props", "VerifProps", "VerifProps.C19_hooks", "VerifProps.C19_sites",
-                                  "VerifProps.C19_flags", "VerifProps.C19_union_emit", "VerifProps.C19_disc_variants"],
-                                 cwd=vlib.COQ, timeout=1600)
+        for _attempt in range(3):
+            rc, out, secs = vlib.run(["timeout", "1500", "coqchk", "-o", "-silent", "-Q", "theories", "Verif", "-Q", "gen", "VerifGen",
+                                      "-Q", "props", "VerifProps", "VerifProps.C19_hooks", "VerifProps.C19_sites",
+                                      "VerifProps.C19_flags", "VerifProps.C19_union_emit", "VerifProps.C19_disc_variants"],
+                                     cwd=vlib.COQ, timeout=1600)
+            if rc == 0 or "rror" in out or "* Axioms" in out:
+                break     # a verdict of the checker; anything else = the process died (OOM killer / timeout): run it again
+            S.RETRIES.append(f"coqchk died without a verdict (rc={rc}, attempt {_attempt + 1})")
+            time.sleep(30)
         import re as _re
         m = _re.search(r"\* Axioms:\s*(.*?)\n\s*\n", out, _re.S)
         axioms = " ".join(m.group(1).split()) if m else "?"
@@ -932,7 +937,7 @@ def run(ctx: vlib.Ctx):
             ctx.correspondence(nm, 0, -1, "no generated method was recorded")
             ctx.not_shown("correspondence " + nm, "no generated method was recorded (exec hook lost?)")
             continue
-        sbad, slog = vlib.coq_bad_idx(nm, "Hooks HookSites", "From VerifGen Require Import K49.", "", terms, okf, cty,
+        sbad, slog = S.coq_bad_idx_j(nm, "Hooks HookSites", "From VerifGen Require Import K49.", "", terms, okf, cty,
                                       needs=["theories/HookSites.vo", "gen/K49.vo"])
         if sbad is None:
             ctx.correspondence(nm, len(terms), -1, slog)
@@ -959,7 +964,7 @@ def run(ctx: vlib.Ctx):
             if t is not None:
                 idx.append(i)
                 terms.append(t)
-        bad, log = vlib.coq_bad_idx(name, "Hooks", "", defs, terms, okf, ctype, shard=ctx.budget(400, 500),
+        bad, log = S.coq_bad_idx_j(name, "Hooks", "", defs, terms, okf, ctype, shard=ctx.budget(400, 500),
                                     needs=["theories/Hooks.vo"])
         if bad is None:
             ctx.correspondence(name, len(terms), -1, log)
@@ -1019,6 +1024,8 @@ def run(ctx: vlib.Ctx):
     t_c1 = time.time()
     corr("c19_de", de_cases, render_de, "de_ok", "de_case")
     ctx.notes.append(f"generation+library {t_c0 - t_start:.1f}s, coq ser {t_c1 - t_c0:.1f}s, coq de {time.time() - t_c1:.1f}s")
+    for r in S.RETRIES:
+        ctx.notes.append("infrastructure retry: " + r)
 
     # the case files are large; nothing needs them after the evaluation
     import glob
